@@ -2,7 +2,7 @@
 # Re-check every seeded defect against the current bin/polycheck in 3 lanes (scratch worktrees under /tmp, removed afterwards).
 cd /verif
 ls -d seeded/*/ | sed 's,/$,,' > /tmp/seed_list.txt
-split -n l/3 /tmp/seed_list.txt /tmp/seed_lane_
+split -n l/${SEED_LANES:-3} /tmp/seed_list.txt /tmp/seed_lane_
 i=0
 for f in /tmp/seed_lane_*; do
   lane=$(basename $f)
